@@ -202,7 +202,15 @@ def h_sub(sx):
     c = Cmp(sx, doc)
     L = None if lang == "en" else lang
     try:
-        if entry == "steps":
+        if entry == "steps" and p.get("via_feature_parser"):
+            # the parser object kept by a parsed feature (as Context.execute_steps uses it): the language of the
+            # "# language:" header is still in force for a later parse_steps() on it
+            from behave import i18n
+            kw = i18n.languages[lang]["feature"][0]
+            feat = parser.parse_feature(u"# language: %s\n%s: reuse\n" % (lang, kw), filename="r.feature")
+            got = feat.parser.parse_steps(gherkin.make_text(sx, lines))
+            c.steps(list(got), exp, "feature.parser.parse_steps")
+        elif entry == "steps":
             got = parser.parse_steps(gherkin.make_text(sx, lines), language=L)
             c.steps(list(got), exp, "parse_steps")
         elif entry == "scenario":
@@ -274,6 +282,9 @@ def jobs(tier, seed):
                               reach=REACH[:2], min_paths=1, cost=100, validate=6, closure=False))
     for t, idx in (("basic", 0), ("basic", 1), ("outline", 0), ("outline", 1)):
         js.append(Job("steps.%s.%d" % (t, idx), "props.c04:h_sub", {"tree": t, "index": idx, "entry": "steps"},
+                      reach=["C04.step-type", "C04.step-name"], min_paths=1, cost=20, validate=20, closure=False))
+    for lg in ("fr", "de"):
+        js.append(Job("steps-reuse.%s" % lg, "props.c04:h_sub", {"tree": "basic", "index": 0, "entry": "steps", "lang": lg, "via_feature_parser": True},
                       reach=["C04.step-type", "C04.step-name"], min_paths=1, cost=20, validate=20, closure=False))
     js.append(Job("scenario.basic", "props.c04:h_sub", {"tree": "basic", "index": 0, "entry": "scenario"},
                   reach=["C04.step-type", "C04.name"], min_paths=1, cost=20, validate=20, closure=False))
